@@ -32,15 +32,22 @@ Arguments Ok {A}. Arguments Err {A}.
 
 Definition code (c : ascii) : N := N_of_ascii c.
 
-(* regex \s and str.isspace on ASCII: blank, \t \n \v \f \r, \x1c-\x1f *)
+(* regex \s and str.isspace on ASCII: blank, \t \n \v \f \r, \x1c-\x1f
+   (codes 32, 9-13, 28-31; written as a match so that vm_compute is fast) *)
 Definition is_ws (c : ascii) : bool :=
-  let n := code c in
-  (n =? 32)%N || ((9 <=? n) && (n <=? 13))%N || ((28 <=? n) && (n <=? 31))%N.
+  match c with
+  | " "%char | "009"%char | "010"%char | "011"%char | "012"%char | "013"%char
+  | "028"%char | "029"%char | "030"%char | "031"%char => true
+  | _ => false
+  end.
 
 (* str.splitlines() boundaries on ASCII: \n \v \f \r \x1c \x1d \x1e *)
 Definition is_linebreak (c : ascii) : bool :=
-  let n := code c in
-  ((10 <=? n) && (n <=? 13))%N || ((28 <=? n) && (n <=? 30))%N.
+  match c with
+  | "010"%char | "011"%char | "012"%char | "013"%char
+  | "028"%char | "029"%char | "030"%char => true
+  | _ => false
+  end.
 
 Definition is_upper (c : ascii) : bool := let n := code c in ((65 <=? n) && (n <=? 90))%N.
 Definition is_lower (c : ascii) : bool := let n := code c in ((97 <=? n) && (n <=? 122))%N.
